@@ -344,12 +344,18 @@ fn v6_exts(mask: u8, big: bool) -> Ipv6Extensions {
             routing: Ipv6RawExtHeader::new_raw(junk, &routing_body(r)).unwrap(),
             final_destination_options: (mask & 8 != 0).then(|| Ipv6RawExtHeader::new_raw(junk, &tlv_fill(f, 7)).unwrap()),
         }),
-        fragment: (mask & 16 != 0).then(|| Ipv6FragmentHeader::new(junk, IpFragOffset::ZERO, false, FRAG_ID)),
+        fragment: (mask & 16 != 0).then(|| {
+            let (m, off) = V6_FRAG.with(|f| f.get()).unwrap_or((false, 0));
+            Ipv6FragmentHeader::new(junk, IpFragOffset::try_new(off).unwrap(), m, FRAG_ID)
+        }),
         auth: (mask & 32 != 0).then(|| IpAuthHeader::new(junk, AH_SPI, AH_SEQ, &icv(a)).unwrap()),
     }
 }
 
 thread_local! {
+    /// (M flag, fragment offset) that `v6_exts` puts into the IPv6 fragment header instead of (false, 0); set only
+    /// by `frag.rs` around its own `make` calls
+    pub static V6_FRAG: std::cell::Cell<Option<(bool, u16)>> = const { std::cell::Cell::new(None) };
     /// (DF, MF, fragment offset) that `ip_headers` puts into an `ip(IpHeaders::Ipv4(..))` header instead of
     /// (true, false, 0); set only by `frag.rs` around its own `make` calls
     pub static V4_FRAG: std::cell::Cell<Option<(bool, bool, u16)>> = const { std::cell::Cell::new(None) };
